@@ -48,22 +48,114 @@ type c11Scenario struct {
 // tree is known to be broken and the rest of the batch does not wait the full period again.
 var c11PrepExpired int
 
-func c11PrepWait() time.Duration {
+// c11HungScenarios counts histories that the watchdog abandoned: after a few of them the tree is known to be
+// wedging and the rest of the batch is not executed (every abandoned history costs a whole watchdog period).
+var c11HungScenarios int
+
+const c11HungLimit = 3
+
+func c11WatchdogMS() int {
 	ms, err := strconv.Atoi(os.Getenv("VERIF_WATCHDOG_MS"))
 	if err != nil || ms <= 0 {
 		ms = 3000
 	}
+	return ms
+}
+
+func c11PrepWait() time.Duration {
+	ms := c11WatchdogMS()
 	if c11PrepExpired >= 3 {
 		ms = 100
 	}
 	return time.Duration(ms) * time.Millisecond
 }
 
+// c11StepWatchdog: a registration round, fetch, forwarding call or preparation that has not returned after this
+// long is recorded as Hung (every interface call of a step is answered by a fake within milliseconds; the period
+// is longer on the confirming re-runs - a wedge is a deadlock, it reproduces whatever the period).
+func c11StepWatchdog() time.Duration {
+	return 2*time.Duration(c11WatchdogMS())*time.Millisecond + 500*time.Millisecond
+}
+
+// c11SteerWait: how long a call made inside the window of a held round is given to finish while the round
+// is held; if it cannot (a design that serialises the submissions to a relay), the round is let go first.
+const c11SteerWait = 60 * time.Millisecond
+
+// c11Hist is one history on ONE service instance.
+type c11Hist struct {
+	t    *testing.T
+	env  *c11Env
+	sys  *c11System
+	ctx  context.Context
+	sc   int
+	hung bool
+	// the window of a held round
+	winDone chan struct{}
+	winGate chan struct{}
+}
+
+// hang records the watchdog event and abandons the instance.
+func (h *c11Hist) hang(step string, d time.Duration) {
+	h.env.emit(verifsupport.Ev{"ev": "Hung", "step": step, "after_ms": int(d / time.Millisecond)})
+	h.env.dead.Store(true)
+	h.hung = true
+	c11HungScenarios++
+}
+
+// await waits for a step that runs on a goroutine of its own; false = the watchdog expired.
+func (h *c11Hist) await(done <-chan struct{}, step string) bool {
+	d := c11StepWatchdog()
+	select {
+	case <-done:
+		return true
+	case <-time.After(d):
+		h.hang(step, d)
+		return false
+	}
+}
+
+// run executes fn (one whole step: the call and the event written when it has returned) under the watchdog.
+func (h *c11Hist) run(step string, fn func()) bool {
+	done := make(chan struct{})
+	go func() {
+		defer close(done)
+		fn()
+	}()
+	return h.await(done, step)
+}
+
+func (h *c11Hist) openWindow() {
+	if h.winGate != nil {
+		select {
+		case <-h.winGate:
+		default:
+			close(h.winGate)
+		}
+	}
+}
+
+// release lets a held round go and waits for it.
+func (h *c11Hist) release() {
+	if h.winDone == nil {
+		return
+	}
+	h.openWindow()
+	done := h.winDone
+	h.winDone, h.winGate = nil, nil
+	h.await(done, "Round")
+}
+
 func c11RunScenario(t *testing.T, tr *verifsupport.Trace, sc c11Scenario) {
 	if len(sc.Steps) == 0 || sc.Steps[0].Ev != "Reset" {
 		t.Fatalf("scenario %d does not start with Reset", sc.Sc)
 	}
-	ctx := context.Background()
+	if c11HungScenarios >= c11HungLimit {
+		tr.Emit(verifsupport.Ev{"sc": sc.Sc, "ev": "Reset", "skipped": true})
+		return
+	}
+	ctx, cancel := context.WithCancel(context.Background())
+	// whatever an abandoned instance still has blocked on this context is let go when the history is over
+	defer cancel()
 	env := c11NewEnv(t, tr, sc.Sc, sc.Steps[0].Docs)
 	// the real standard signer (BLS signatures verified by the relay fakes) on every fourth scenario
 	// in the quick tier and on all of them in the thorough tier; a hashing signer otherwise
@@ -86,19 +178,33 @@ func c11RunScenario(t *testing.T, tr *verifsupport.Trace, sc c11Scenario) {
 		t.Fatalf("proposalpreparer New: %v", err)
 	}
 	env.emit(verifsupport.Ev{"ev": "Reset", "signer": map[bool]string{true: "standard", false: "hash"}[realSigner]})
+	h := &c11Hist{t: t, env: env, sys: sys, ctx: ctx, sc: sc.Sc}
+	lane2 := context.WithValue(ctx, c11LaneKey{}, "f2")
 
+	// ONE instance for the whole history: every step meets what the earlier steps left on it
 	for i, st := range sc.Steps[1:] {
+		if h.hung {
+			break
+		}
 		switch st.Ev {
 		case "Fetch":
-			env.mu.Lock()
-			env.srcOut, env.srcDoc = st.Out, st.Doc
-			env.accts = []int{1, 2}
-			env.mu.Unlock()
-			if !sys.sched.Fire(ctx, c11FetchJob) {
-				t.Fatalf("no fetch job")
-			}
-			env.emit(verifsupport.Ev{"ev": "Fetch", "out": st.Out, "doc": st.Doc, "cfg": c11Projection(ctx, sys.svc)})
+			h.run("Fetch", func() {
+				env.mu.Lock()
+				env.srcOut, env.srcDoc = st.Out, st.Doc
+				if h.winDone == nil {
+					env.accts = []int{1, 2}
+				}
+				env.mu.Unlock()
+				if !sys.sched.Fire(ctx, c11FetchJob) {
+					t.Errorf("no fetch job")
+				}
+				env.emit(verifsupport.Ev{"ev": "Fetch", "out": st.Out, "doc": st.Doc, "cfg": c11Projection(ctx, sys.svc)})
+			})
 		case "Round":
+			h.release()
+			if h.hung {
+				break
+			}
 			env.mu.Lock()
 			env.accts = c11Ints(st.Accts)
 			env.signFail = map[[3]int]bool{}
@@ -115,44 +221,113 @@ func c11RunScenario(t *testing.T, tr *verifsupport.Trace, sc c11Scenario) {
 			}
 			env.mode = "reg"
 			env.newRound(st.Lat)
+			env.gate, env.gateArrived = nil, 0
+			if st.Lat == "held" {
+				env.gate = make(chan struct{})
+			}
+			gate := env.gate
 			env.mu.Unlock()
 			env.emit(verifsupport.Ev{"ev": "RoundStart", "accts": c11Ints(st.Accts)})
-			// the registration job the service registered with the scheduler
-			if !sys.sched.Fire(ctx, c11RegisterJob) {
-				t.Fatalf("no registration job")
+			round := func() {
+				// the registration job the service registered with the scheduler
+				if !sys.sched.Fire(ctx, c11RegisterJob) {
+					t.Errorf("no registration job")
+				}
+				env.emit(verifsupport.Ev{"ev": "RoundEnd"})
 			}
-			env.emit(verifsupport.Ev{"ev": "RoundEnd"})
-		case "Prep":
-			env.mu.Lock()
-			env.accts = c11Ints(st.Accts)
-			env.prepOut = map[int]string{}
-			for _, no := range st.Nodeout {
-				env.prepOut[int(no[0].(float64))] = no[1].(string)
+			if gate == nil {
+				h.run("Round", round)
+				break
 			}
-			env.prepSeen = 0
-			env.newRound(st.Lat)
-			env.mu.Unlock()
-			env.emit(verifsupport.Ev{"ev": "PrepStart", "accts": c11Ints(st.Accts)})
-			uerr := prep.UpdatePreparations(ctx)
-			// the submissions run on a goroutine of their own: wait until every node was called
-			// (bounded: a node that is never called is what the trace then shows)
-			deadline := time.Now().Add(c11PrepWait())
-			timer := time.AfterFunc(c11PrepWait(), func() {
+			// a held round: wait until a healthy relay has the round's call in flight (or the round is over:
+			// nothing to hold), then go on with the steps of the window
+			done := make(chan struct{})
+			go func() {
+				defer close(done)
+				round()
+			}()
+			d := c11StepWatchdog()
+			timer := time.AfterFunc(d, func() {
 				env.mu.Lock()
 				env.acctsCond.Broadcast()
 				env.mu.Unlock()
 			})
+			deadline := time.Now().Add(d)
+			finished := false
+			go func() {
+				<-done
+				env.mu.Lock()
+				env.acctsCond.Broadcast()
+				env.mu.Unlock()
+			}()
 			env.mu.Lock()
-			for env.prepSeen < len(sys.nodes) && time.Now().Before(deadline) && uerr == nil {
+			for env.gateArrived == 0 && time.Now().Before(deadline) {
+				select {
+				case <-done:
+					finished = true
+				default:
+				}
+				if finished {
+					break
+				}
 				env.acctsCond.Wait()
 			}
-			if env.prepSeen < len(sys.nodes) && uerr == nil {
-				c11PrepExpired++
-			}
+			arrived := env.gateArrived > 0
 			env.mu.Unlock()
 			timer.Stop()
-			env.emit(verifsupport.Ev{"ev": "PrepEnd", "ok": uerr == nil})
-		case "Fwd":
+			switch {
+			case arrived:
+				h.winDone, h.winGate = done, gate
+			case finished:
+			default:
+				h.hang("Round", d)
+			}
+		case "Release":
+			h.release()
+		case "Prep":
+			h.release()
+			if h.hung {
+				break
+			}
+			h.run("Prep", func() {
+				env.mu.Lock()
+				env.accts = c11Ints(st.Accts)
+				env.prepOut = map[int]string{}
+				for _, no := range st.Nodeout {
+					env.prepOut[int(no[0].(float64))] = no[1].(string)
+				}
+				env.prepSeen = 0
+				env.newRound(st.Lat)
+				env.mu.Unlock()
+				env.emit(verifsupport.Ev{"ev": "PrepStart", "accts": c11Ints(st.Accts)})
+				uerr := prep.UpdatePreparations(ctx)
+				// the submissions run on a goroutine of their own: wait until every node was called
+				// (bounded: a node that is never called is what the trace then shows)
+				deadline := time.Now().Add(c11PrepWait())
+				timer := time.AfterFunc(c11PrepWait(), func() {
+					env.mu.Lock()
+					env.acctsCond.Broadcast()
+					env.mu.Unlock()
+				})
+				env.mu.Lock()
+				for env.prepSeen < len(sys.nodes) && time.Now().Before(deadline) && uerr == nil {
+					env.acctsCond.Wait()
+				}
+				if env.prepSeen < len(sys.nodes) && uerr == nil {
+					c11PrepExpired++
+				}
+				env.mu.Unlock()
+				timer.Stop()
+				env.emit(verifsupport.Ev{"ev": "PrepEnd", "ok": uerr == nil})
+			})
+		case "Fwd", "Fwd2":
+			second := st.Ev == "Fwd2"
+			if !second {
+				h.release()
+				if h.hung {
+					break
+				}
+			}
 			regs := make([]*types.SignedValidatorRegistration, 0, len(st.Regs))
 			in := map[[3]int]*builderapiv1.SignedValidatorRegistration{}
 			for j, rg := range st.Regs {
@@ -172,26 +347,56 @@ func c11RunScenario(t *testing.T, tr *verifsupport.Trace, sc c11Scenario) {
 					Signature: sig,
 				}
 			}
-			env.mu.Lock()
-			env.fwdIn = in
-			env.mode = "fwd"
-			env.relayFail = map[int]bool{}
+			fail := map[int]bool{}
 			for _, r := range st.Relayfail {
-				env.relayFail[r] = true
+				fail[r] = true
 			}
-			env.newRound(st.Lat)
-			env.mu.Unlock()
-			env.emit(verifsupport.Ev{"ev": "FwdStart", "regs": st.Regs})
-			_, ferr := sys.svc.ValidatorRegistrations(ctx, regs)
-			env.emit(verifsupport.Ev{"ev": "FwdEnd", "ok": ferr == nil})
-			env.mu.Lock()
-			env.mode = "reg"
-			env.relayFail = map[int]bool{}
-			env.mu.Unlock()
+			if second {
+				// a REST forwarding call made while the held round is in flight: the second lane
+				env.mu.Lock()
+				env.f2In, env.f2RelayFail = in, fail
+				env.mu.Unlock()
+				env.emit(verifsupport.Ev{"ev": "F2Start", "regs": st.Regs})
+				done := make(chan struct{})
+				go func() {
+					defer close(done)
+					_, ferr := sys.svc.ValidatorRegistrations(lane2, regs)
+					env.emit(verifsupport.Ev{"ev": "F2End", "ok": ferr == nil})
+				}()
+				select {
+				case <-done:
+				case <-time.After(c11SteerWait):
+					// it does not finish while the round is held: let the round go first
+					h.release()
+					if !h.hung {
+						h.await(done, "Fwd2")
+					}
+				}
+				break
+			}
+			h.run("Fwd", func() {
+				env.mu.Lock()
+				env.fwdIn = in
+				env.mode = "fwd"
+				env.relayFail = fail
+				env.newRound(st.Lat)
+				env.mu.Unlock()
+				env.emit(verifsupport.Ev{"ev": "FwdStart", "regs": st.Regs})
+				_, ferr := sys.svc.ValidatorRegistrations(ctx, regs)
+				env.emit(verifsupport.Ev{"ev": "FwdEnd", "ok": ferr == nil})
+				env.mu.Lock()
+				env.mode = "reg"
+				env.relayFail = map[int]bool{}
+				env.mu.Unlock()
+			})
 		default:
 			t.Fatalf("unknown step %q", st.Ev)
 		}
 	}
+	if !h.hung {
+		h.release()
+	}
+	h.openWindow()
 }
 
 func TestVerifC11(t *testing.T) {
